@@ -79,6 +79,15 @@ func newSubProcess(eventBuilder event.IDefinitionInstanceBuilder, idGenerator id
 			mch:                    make(chan imessage, len(parentWiring.incoming)*2+1),
 		}
 
+		// The event nodes inside the sub-process register with the sub-process
+		// (see wiringMaker): the sub-process itself has to be a consumer of the
+		// scope it lives in, or no event handed to the instance ever reaches
+		// ConsumeEvent and the catch events inside wait for ever.
+		err = parentWiring.eventEgress.RegisterEventConsumer(process)
+		if err != nil {
+			return
+		}
+
 		locator := parentWiring.locator
 		err = data.ElementToLocator(locator, idGenerator, subProcessElement)
 		if err != nil {
